@@ -95,6 +95,22 @@ fn unary(ctx: &mut Ctx, v: &Int, x: &BigInt, prov: &str) {
     if r != Out::Ret(wantu.clone()) {
         ctx.viol(format!("to_biguint x={} {}", v.to_hex(), prov), "to_biguint must succeed exactly for non-negative values", args(), format!("{:?}", wantu), format!("{:?}", r));
     }
+    // the ToBigUint trait impl is a separate copy from the inherent method (method syntax picks the inherent one)
+    ctx.compared(2);
+    let r = call(ctx, || ToBigUint::to_biguint(x).map(|u| nat_of(&u)));
+    if r != Out::Ret(wantu.clone()) {
+        ctx.viol(format!("ToBigUint::to_biguint(&BigInt) x={} {}", v.to_hex(), prov), "the trait form of to_biguint must succeed exactly for non-negative values", args(), format!("{:?}", wantu), format!("{:?}", r));
+    }
+    fn generic<T: ToBigUint + ToBigInt>(t: &T) -> (Option<BigUint>, Option<BigInt>) {
+        (t.to_biguint(), t.to_bigint())
+    }
+    let r = call(ctx, || {
+        let (a, b) = generic(x);
+        (a.map(|u| nat_of(&u)), b.map(|i| int_of(&i)))
+    });
+    if r != Out::Ret((wantu.clone(), Some(v.clone()))) {
+        ctx.viol(format!("generic ToBigUint/ToBigInt on BigInt x={} {}", v.to_hex(), prov), "generic conversion through the traits disagrees with the value", args(), format!("{:?}", (wantu.clone(), v.to_hex())), format!("{:?}", r));
+    }
     let r = call(ctx, || BigUint::try_from(x).ok().map(|u| nat_of(&u)));
     if r != Out::Ret(wantu.clone()) {
         ctx.viol(format!("TryFrom<&BigInt> for BigUint x={} {}", v.to_hex(), prov), "must succeed exactly for non-negative values", args(), format!("{:?}", wantu), format!("{:?}", r));
